@@ -440,7 +440,9 @@ class HistoryGen:
             self.sweep(hi)
             return
         if kind in QUERY_KINDS:
-            self.emit(self.query_op(kind, hi, h))
+            q = self.query_op(kind, hi, h)
+            self.emit(q)
+            self.kill_and_requery(q, hi, h)
             return
         if kind in ("simplify", "downsize"):
             op.update(op=kind)
@@ -506,6 +508,33 @@ class HistoryGen:
         else:
             raise AssertionError(kind)
         self.emit(op)
+
+    def kill_and_requery(self, q, hi, h):
+        """Invalidation pattern: exclude the value a query has just returned (the optimum, or one of the evaluated
+        values) with a new constraint and ask the same question again - a cache that survives the add shows at once."""
+        r = self.r
+        if q["op"] not in ("min", "max", "eval") or q.get("extra") or not r.chance(self.p.get("kill_requery_pct", 18)):
+            return
+        e = q["e"]
+        w = width_of(e, self.vars)
+        if w == 0:
+            return
+        if q["op"] == "eval":
+            V = sorted(h.ref.values(e))
+            if not V:
+                return
+            v = r.choice(V)
+        else:
+            v = h.ref.optimum(e, bool(q.get("signed")), q["op"] == "max")
+            if v is None:
+                return
+        self.emit({"op": "add", "h": hi, "cs": [["ne", e, ["const", v, w]]]})
+        self.emit(dict(q))
+        if r.chance(30):
+            other = dict(q)
+            if other["op"] in ("min", "max"):
+                other["signed"] = not other.get("signed", False)
+            self.emit(other)
 
     def gen_merge(self, hi, h, live):
         r = self.r
